@@ -10,7 +10,10 @@ EXTENDS Gear102, CommClauses
 
 CONSTANTS Configs,      \* set of [shorts, storeOK, permitted, readdress, dryrun]
           RandVals,     \* random addresses a unit may draw
-          K             \* rounds in which clashes are allowed
+          K,            \* rounds in which clashes are allowed
+          SkipSame      \* "no": every probe sends all three search-address bytes (the code); "exact": bytes the gear already
+                        \* hold are not sent again (a correct optimisation); "afterfind": the same with the slip of the
+                        \* seeded change C07f -- after a find the remembered value is the next address to look at
 
 Cfg(sh, ok, perm, re, dry) == [shorts |-> sh, storeOK |-> ok, permitted |-> perm, readdress |-> re, dryrun |-> dry]
 ConfigsSmall ==
@@ -28,6 +31,9 @@ ConfigsFull ==
 RandValsFull == {0, 1, 8388608, 16777215}
 ConfigsFinding == {Cfg(<<255, 255, 255>>, <<TRUE, TRUE, TRUE>>, <<0, 1, 2>>, FALSE, FALSE)}
 RandValsFinding == {1, 5, 7}
+\* random addresses on byte boundaries of the search address: 0x123456, 0xFFFEFF, 0xFFFF80
+ConfigsBytes == {Cfg(<<255, 255, 255>>, <<TRUE, TRUE, TRUE>>, perm, re, FALSE) : perm \in {<<0, 1, 2>>, <<5, 6>>}, re \in BOOLEAN}
+RandValsBytes == {1193046, 16776959, 16777088}
 
 NoneV == -1
 Clash == -3
@@ -61,7 +67,8 @@ Without(s, x) == SelectSeq(s, LAMBDA y : y # x)
             avail = cfg.permitted,
             a = 0, finished = FALSE, low = 0, high = Top, res = NoneV,
             resp = <<"none", 0>>, count = 0, rounds = 0, outcome = "running",
-            witness = FALSE, newaddr = -1, drawlog = <<>>, cmdlog = <<>>;
+            witness = FALSE, newaddr = -1, drawlog = <<>>, cmdlog = <<>>,
+            cur = NoneV;      \* SkipSame: the search address the sequence believes the gear hold
 
   macro Yield(f) {
       with (s = Step(bus, f, NoDraw(bus))) { bus := s.bus; resp := s.resp; };
@@ -72,9 +79,10 @@ Without(s, x) == SelectSeq(s, LAMBDA y : y # x)
   procedure find_next(lo, hi)
     variables r = <<"none", 0>>;
   {
-    fn1: Yield(Sp("SearchaddrH", hi \div 65536));
-    fn2: Yield(Sp("SearchaddrM", (hi \div 256) % 256));
+    fn1: if (SkipSame = "no" \/ cur = NoneV \/ cur \div 65536 # hi \div 65536) { Yield(Sp("SearchaddrH", hi \div 65536)); };
+    fn2: if (SkipSame = "no" \/ cur = NoneV \/ (cur \div 256) % 256 # (hi \div 256) % 256) { Yield(Sp("SearchaddrM", (hi \div 256) % 256)); };
     fn3: Yield(Sp("SearchaddrL", hi % 256));
+         cur := hi;
     fn4: Yield(Sp("Compare", 0));
          r := resp;
     fn5: if (lo = hi) {
@@ -116,6 +124,7 @@ Without(s, x) == SelectSeq(s, LAMBDA y : y # x)
             rounds := rounds + 1;
             low := 0;
             high := Top;
+            cur := NoneV;
     m8:     while (low # NoneV) {
                 call find_next(low, high);
     m9:         if (res = Clash) { low := NoneV; goto m7; }
@@ -135,6 +144,7 @@ Without(s, x) == SelectSeq(s, LAMBDA y : y # x)
                     };
     m12:            Yield(Sp("Withdraw", 0));
                     if (low < high) { low := low + 1 } else { low := NoneV; finished := TRUE };
+                    if (SkipSame = "afterfind" /\ low # NoneV) { cur := low };
                 }
             }
         };
@@ -145,12 +155,12 @@ Without(s, x) == SelectSeq(s, LAMBDA y : y # x)
 \* BEGIN TRANSLATION
 CONSTANT defaultInitValue
 VARIABLES pc, cfg, bus, avail, a, finished, low, high, res, resp, count, 
-          rounds, outcome, witness, newaddr, drawlog, cmdlog, stack, lo, hi, 
-          r
+          rounds, outcome, witness, newaddr, drawlog, cmdlog, cur, stack, lo, 
+          hi, r
 
 vars == << pc, cfg, bus, avail, a, finished, low, high, res, resp, count, 
-           rounds, outcome, witness, newaddr, drawlog, cmdlog, stack, lo, hi, 
-           r >>
+           rounds, outcome, witness, newaddr, drawlog, cmdlog, cur, stack, lo, 
+           hi, r >>
 
 Init == (* Global variables *)
         /\ cfg \in Configs
@@ -169,6 +179,7 @@ Init == (* Global variables *)
         /\ newaddr = -1
         /\ drawlog = <<>>
         /\ cmdlog = <<>>
+        /\ cur = NoneV
         (* Procedure find_next *)
         /\ lo = defaultInitValue
         /\ hi = defaultInitValue
@@ -177,24 +188,32 @@ Init == (* Global variables *)
         /\ pc = "m0"
 
 fn1 == /\ pc = "fn1"
-       /\ LET s == Step(bus, (Sp("SearchaddrH", hi \div 65536)), NoDraw(bus)) IN
-            /\ bus' = s.bus
-            /\ resp' = s.resp
-       /\ count' = count + 1
-       /\ cmdlog' = Append(cmdlog, (Sp("SearchaddrH", hi \div 65536)))
+       /\ IF SkipSame = "no" \/ cur = NoneV \/ cur \div 65536 # hi \div 65536
+             THEN /\ LET s == Step(bus, (Sp("SearchaddrH", hi \div 65536)), NoDraw(bus)) IN
+                       /\ bus' = s.bus
+                       /\ resp' = s.resp
+                  /\ count' = count + 1
+                  /\ cmdlog' = Append(cmdlog, (Sp("SearchaddrH", hi \div 65536)))
+             ELSE /\ TRUE
+                  /\ UNCHANGED << bus, resp, count, cmdlog >>
        /\ pc' = "fn2"
        /\ UNCHANGED << cfg, avail, a, finished, low, high, res, rounds, 
-                       outcome, witness, newaddr, drawlog, stack, lo, hi, r >>
+                       outcome, witness, newaddr, drawlog, cur, stack, lo, hi, 
+                       r >>
 
 fn2 == /\ pc = "fn2"
-       /\ LET s == Step(bus, (Sp("SearchaddrM", (hi \div 256) % 256)), NoDraw(bus)) IN
-            /\ bus' = s.bus
-            /\ resp' = s.resp
-       /\ count' = count + 1
-       /\ cmdlog' = Append(cmdlog, (Sp("SearchaddrM", (hi \div 256) % 256)))
+       /\ IF SkipSame = "no" \/ cur = NoneV \/ (cur \div 256) % 256 # (hi \div 256) % 256
+             THEN /\ LET s == Step(bus, (Sp("SearchaddrM", (hi \div 256) % 256)), NoDraw(bus)) IN
+                       /\ bus' = s.bus
+                       /\ resp' = s.resp
+                  /\ count' = count + 1
+                  /\ cmdlog' = Append(cmdlog, (Sp("SearchaddrM", (hi \div 256) % 256)))
+             ELSE /\ TRUE
+                  /\ UNCHANGED << bus, resp, count, cmdlog >>
        /\ pc' = "fn3"
        /\ UNCHANGED << cfg, avail, a, finished, low, high, res, rounds, 
-                       outcome, witness, newaddr, drawlog, stack, lo, hi, r >>
+                       outcome, witness, newaddr, drawlog, cur, stack, lo, hi, 
+                       r >>
 
 fn3 == /\ pc = "fn3"
        /\ LET s == Step(bus, (Sp("SearchaddrL", hi % 256)), NoDraw(bus)) IN
@@ -202,6 +221,7 @@ fn3 == /\ pc = "fn3"
             /\ resp' = s.resp
        /\ count' = count + 1
        /\ cmdlog' = Append(cmdlog, (Sp("SearchaddrL", hi % 256)))
+       /\ cur' = hi
        /\ pc' = "fn4"
        /\ UNCHANGED << cfg, avail, a, finished, low, high, res, rounds, 
                        outcome, witness, newaddr, drawlog, stack, lo, hi, r >>
@@ -215,7 +235,7 @@ fn4 == /\ pc = "fn4"
        /\ r' = resp'
        /\ pc' = "fn5"
        /\ UNCHANGED << cfg, avail, a, finished, low, high, res, rounds, 
-                       outcome, witness, newaddr, drawlog, stack, lo, hi >>
+                       outcome, witness, newaddr, drawlog, cur, stack, lo, hi >>
 
 fn5 == /\ pc = "fn5"
        /\ IF lo = hi
@@ -246,7 +266,7 @@ fn5 == /\ pc = "fn5"
                              /\ hi' = Head(stack).hi
                              /\ stack' = Tail(stack)
        /\ UNCHANGED << cfg, bus, avail, a, finished, low, high, resp, count, 
-                       rounds, outcome, witness, newaddr, drawlog, cmdlog >>
+                       rounds, outcome, witness, newaddr, drawlog, cmdlog, cur >>
 
 fn6 == /\ pc = "fn6"
        /\ IF res # NoneV
@@ -267,7 +287,7 @@ fn6 == /\ pc = "fn6"
                   /\ pc' = "fn1"
        /\ UNCHANGED << cfg, bus, avail, a, finished, low, high, res, resp, 
                        count, rounds, outcome, witness, newaddr, drawlog, 
-                       cmdlog >>
+                       cmdlog, cur >>
 
 fn7 == /\ pc = "fn7"
        /\ pc' = Head(stack).pc
@@ -277,7 +297,7 @@ fn7 == /\ pc = "fn7"
        /\ stack' = Tail(stack)
        /\ UNCHANGED << cfg, bus, avail, a, finished, low, high, res, resp, 
                        count, rounds, outcome, witness, newaddr, drawlog, 
-                       cmdlog >>
+                       cmdlog, cur >>
 
 find_next == fn1 \/ fn2 \/ fn3 \/ fn4 \/ fn5 \/ fn6 \/ fn7
 
@@ -289,7 +309,7 @@ m0 == /\ pc = "m0"
             ELSE /\ pc' = "m3"
       /\ UNCHANGED << cfg, bus, avail, a, finished, low, high, res, resp, 
                       count, rounds, outcome, witness, newaddr, drawlog, 
-                      cmdlog, stack, lo, hi, r >>
+                      cmdlog, cur, stack, lo, hi, r >>
 
 m3 == /\ pc = "m3"
       /\ IF a < 64
@@ -310,7 +330,7 @@ m3 == /\ pc = "m3"
             ELSE /\ pc' = "m5"
                  /\ UNCHANGED << bus, avail, a, resp, count, cmdlog >>
       /\ UNCHANGED << cfg, finished, low, high, res, rounds, outcome, witness, 
-                      newaddr, drawlog, stack, lo, hi, r >>
+                      newaddr, drawlog, cur, stack, lo, hi, r >>
 
 m1 == /\ pc = "m1"
       /\ LET s == Step(bus, (Sp("DTR0", 255)), NoDraw(bus)) IN
@@ -320,7 +340,7 @@ m1 == /\ pc = "m1"
       /\ cmdlog' = Append(cmdlog, (Sp("DTR0", 255)))
       /\ pc' = "m2"
       /\ UNCHANGED << cfg, avail, a, finished, low, high, res, rounds, outcome, 
-                      witness, newaddr, drawlog, stack, lo, hi, r >>
+                      witness, newaddr, drawlog, cur, stack, lo, hi, r >>
 
 m2 == /\ pc = "m2"
       /\ LET s == Step(bus, (Std("SetShortAddress", <<"gbcast", 0>>)), NoDraw(bus)) IN
@@ -330,7 +350,7 @@ m2 == /\ pc = "m2"
       /\ cmdlog' = Append(cmdlog, (Std("SetShortAddress", <<"gbcast", 0>>)))
       /\ pc' = "m5"
       /\ UNCHANGED << cfg, avail, a, finished, low, high, res, rounds, outcome, 
-                      witness, newaddr, drawlog, stack, lo, hi, r >>
+                      witness, newaddr, drawlog, cur, stack, lo, hi, r >>
 
 m5 == /\ pc = "m5"
       /\ LET s == Step(bus, (Sp("Terminate", 0)), NoDraw(bus)) IN
@@ -340,7 +360,7 @@ m5 == /\ pc = "m5"
       /\ cmdlog' = Append(cmdlog, (Sp("Terminate", 0)))
       /\ pc' = "m6"
       /\ UNCHANGED << cfg, avail, a, finished, low, high, res, rounds, outcome, 
-                      witness, newaddr, drawlog, stack, lo, hi, r >>
+                      witness, newaddr, drawlog, cur, stack, lo, hi, r >>
 
 m6 == /\ pc = "m6"
       /\ LET s == Step(bus, (Sp("Initialise", IF cfg.readdress THEN 0 ELSE 255)), NoDraw(bus)) IN
@@ -350,7 +370,7 @@ m6 == /\ pc = "m6"
       /\ cmdlog' = Append(cmdlog, (Sp("Initialise", IF cfg.readdress THEN 0 ELSE 255)))
       /\ pc' = "m7"
       /\ UNCHANGED << cfg, avail, a, finished, low, high, res, rounds, outcome, 
-                      witness, newaddr, drawlog, stack, lo, hi, r >>
+                      witness, newaddr, drawlog, cur, stack, lo, hi, r >>
 
 m7 == /\ pc = "m7"
       /\ IF ~finished
@@ -364,10 +384,11 @@ m7 == /\ pc = "m7"
                  /\ rounds' = rounds + 1
                  /\ low' = 0
                  /\ high' = Top
+                 /\ cur' = NoneV
                  /\ pc' = "m8"
             ELSE /\ pc' = "m13"
                  /\ UNCHANGED << bus, low, high, resp, count, rounds, drawlog, 
-                                 cmdlog >>
+                                 cmdlog, cur >>
       /\ UNCHANGED << cfg, avail, a, finished, res, outcome, witness, newaddr, 
                       stack, lo, hi, r >>
 
@@ -387,7 +408,7 @@ m8 == /\ pc = "m8"
                  /\ UNCHANGED << stack, lo, hi, r >>
       /\ UNCHANGED << cfg, bus, avail, a, finished, low, high, res, resp, 
                       count, rounds, outcome, witness, newaddr, drawlog, 
-                      cmdlog >>
+                      cmdlog, cur >>
 
 m9 == /\ pc = "m9"
       /\ IF res = Clash
@@ -413,7 +434,7 @@ m9 == /\ pc = "m9"
                                        /\ UNCHANGED << avail, witness, newaddr >>
                             /\ UNCHANGED finished
       /\ UNCHANGED << cfg, bus, a, high, res, resp, count, rounds, outcome, 
-                      drawlog, cmdlog, stack, lo, hi, r >>
+                      drawlog, cmdlog, cur, stack, lo, hi, r >>
 
 m12 == /\ pc = "m12"
        /\ LET s == Step(bus, (Sp("Withdraw", 0)), NoDraw(bus)) IN
@@ -426,6 +447,10 @@ m12 == /\ pc = "m12"
                   /\ UNCHANGED finished
              ELSE /\ low' = NoneV
                   /\ finished' = TRUE
+       /\ IF SkipSame = "afterfind" /\ low' # NoneV
+             THEN /\ cur' = low'
+             ELSE /\ TRUE
+                  /\ cur' = cur
        /\ pc' = "m8"
        /\ UNCHANGED << cfg, avail, a, high, res, rounds, outcome, witness, 
                        newaddr, drawlog, stack, lo, hi, r >>
@@ -438,7 +463,8 @@ m10 == /\ pc = "m10"
        /\ cmdlog' = Append(cmdlog, (Sp("ProgramShortAddress", 2 * newaddr + 1)))
        /\ pc' = "m11"
        /\ UNCHANGED << cfg, avail, a, finished, low, high, res, rounds, 
-                       outcome, witness, newaddr, drawlog, stack, lo, hi, r >>
+                       outcome, witness, newaddr, drawlog, cur, stack, lo, hi, 
+                       r >>
 
 m11 == /\ pc = "m11"
        /\ LET s == Step(bus, (Sp("VerifyShortAddress", 2 * newaddr + 1)), NoDraw(bus)) IN
@@ -452,7 +478,7 @@ m11 == /\ pc = "m11"
              ELSE /\ pc' = "m12"
                   /\ UNCHANGED outcome
        /\ UNCHANGED << cfg, avail, a, finished, low, high, res, rounds, 
-                       witness, newaddr, drawlog, stack, lo, hi, r >>
+                       witness, newaddr, drawlog, cur, stack, lo, hi, r >>
 
 m13 == /\ pc = "m13"
        /\ LET s == Step(bus, (Sp("Terminate", 0)), NoDraw(bus)) IN
@@ -463,7 +489,7 @@ m13 == /\ pc = "m13"
        /\ outcome' = "ok"
        /\ pc' = "Done"
        /\ UNCHANGED << cfg, avail, a, finished, low, high, res, rounds, 
-                       witness, newaddr, drawlog, stack, lo, hi, r >>
+                       witness, newaddr, drawlog, cur, stack, lo, hi, r >>
 
 (* Allow infinite stuttering to prevent deadlock on termination. *)
 Terminating == pc = "Done" /\ UNCHANGED vars
